@@ -280,9 +280,16 @@ impl DateTime {
                 .chars()
                 .take_while(|&char| char != 'Z' && char != '+' && char != '-')
                 .collect::<String>();
-            let nanos = nanos_string.parse::<u64>().map_err(|_| {
+            // Only the first 9 decimal places (nanoseconds) are used, the rest is truncated
+            let nanos_digits = nanos_string.chars().take(9).collect::<String>();
+            if nanos_digits.is_empty() || !nanos_string.chars().all(|char| char.is_ascii_digit()) {
+                return Err(create_invalid_format(
+                    "Failed parsing subseconds from RFC 3339 string".to_string(),
+                ));
+            }
+            let nanos = nanos_digits.parse::<u64>().map_err(|_| {
                 create_invalid_format("Failed parsing subseconds from RFC 3339 string".to_string())
-            })? * (1000000000 / 10_u64.pow(nanos_string.len() as u32));
+            })? * 10_u64.pow(9 - nanos_digits.len() as u32);
 
             let offset_substring = string[20..]
                 .chars()
